@@ -235,6 +235,78 @@ theorem resynth_changes_non_der :
     (parse false (.node (.prim .tail) .done) [0x30, 6, 2, 1, 1, 2, 1, 2]).bind (fun f => .ok (emit f))
       = .ok [0x30, 3, 2, 1, 1] := by decide
 
+/-! ### edits on a parsed SignedData: only the edited field changes -/
+
+/-- **edit_preserves_other_fields.** Replacing field `i` of a parsed structure by one new node leaves every
+    other field's emitted bytes – raw-captured or re-synthesised – exactly as they were, and the number
+    of fields unchanged. -/
+theorem edit_preserves_other_fields (i : Nat) (new f : Forest) (hi : i < (Forest.sibs f).length)
+    (hn : (Forest.sibs new).length = 1) :
+    (Forest.sibs (Forest.editField i new f)).length = (Forest.sibs f).length ∧
+    ∀ j, j ≠ i → (Forest.sibs (Forest.editField i new f))[j]? = (Forest.sibs f)[j]? := by
+  rw [Forest.sibs_editField]
+  generalize Forest.sibs f = l at hi
+  match hs : Forest.sibs new, hn with
+  | [x], _ =>
+    refine ⟨by simp [List.length_take, List.length_drop]; omega, fun j hj => ?_⟩
+    rcases Nat.lt_or_gt_of_ne hj with h | h
+    · rw [List.getElem?_append_left (by simp [List.length_take]; omega), List.getElem?_take_of_lt h]
+    · rw [List.getElem?_append_right (by simp [List.length_take]; omega)]
+      simp only [List.length_take, Nat.min_eq_left (Nat.le_of_lt hi), List.singleton_append]
+      obtain ⟨k, rfl⟩ : ∃ k, j = i + 1 + k := ⟨j - (i + 1), by omega⟩
+      have : i + 1 + k - i = k + 1 := by omega
+      rw [this, List.getElem?_cons_succ, List.getElem?_drop]
+
+/-- **detach_preserves_other_fields.** `Detach` on a parsed SignedData (children of its SEQUENCE:
+    version, digestAlgorithms, contentInfo, certificates, crls, signerInfos – whichever are present, in
+    whatever representation): the number of fields is unchanged, every field other than the ContentInfo
+    (index 2) is emitted with the very bytes it had before – certificates, CRLs and every signer info
+    included – and the whole `ContentInfoSignedData` is emitted as the fresh framing around these fields. -/
+theorem detach_preserves_other_fields (kids : Forest) :
+    (Forest.sibs (detachKids kids)).length = (Forest.sibs kids).length ∧
+    (∀ j, j ≠ 2 → (Forest.sibs (detachKids kids))[j]? = (Forest.sibs kids)[j]?) ∧
+    ∀ oid, emit (detachSD (wrapSD oid kids)) =
+      tlv 0x30 (tlv 0x06 oid ++ tlv 0xA0 (tlv 0x30 (Forest.sibs (detachKids kids)).flatten)) := by
+  refine ⟨?_, ?_, fun oid => emit_detachSD_wrapSD oid kids⟩
+  all_goals
+    unfold detachKids
+    split
+    · rename_i t full next hd
+      split
+      · rename_i oid _
+        have hl : 2 < (Forest.sibs kids).length := by
+          have := congrArg (fun f => (Forest.sibs f).length) hd
+          simp only [Forest.sibs_dropSibs, List.length_drop, Forest.sibs, List.length_cons] at this
+          omega
+        first
+          | exact (edit_preserves_other_fields 2 (detachedCI oid) kids hl (by simp [detachedCI, Forest.sibs])).1
+          | exact (edit_preserves_other_fields 2 (detachedCI oid) kids hl (by simp [detachedCI, Forest.sibs])).2
+      · first | rfl | exact fun _ _ => rfl
+    · first | rfl | exact fun _ _ => rfl
+
+/-- **detach_removes_content.** … and the ContentInfo field becomes `SEQUENCE { contentType }`: the
+    encapsulated content is gone, the content type stays. -/
+theorem detach_removes_content (kids : Forest) (t : UInt8) (full oid : Bytes) (next : Forest)
+    (hd : Forest.dropSibs 2 kids = .rawc t full next) (ho : ciOid full = some oid) :
+    (Forest.sibs (detachKids kids))[2]? = some (tlv 0x30 (tlv 0x06 oid)) := by
+  have hl : 2 < (Forest.sibs kids).length := by
+    have := congrArg (fun f => (Forest.sibs f).length) hd
+    simp only [Forest.sibs_dropSibs, List.length_drop, Forest.sibs, List.length_cons] at this
+    omega
+  simp only [detachKids, hd, ho, Forest.sibs_editField]
+  rw [List.getElem?_append_right (by simp [List.length_take]; omega)]
+  simp [List.length_take, Nat.min_eq_left (Nat.le_of_lt hl), detachedCI, Forest.sibs, emit]
+
+/-- a SignedData with certificates *and* CRLs: after `Detach` the CRL field (index 4) is still there,
+    byte for byte; a rebuild that forgets the field (`editField 4 .nil`) is a different encoding. -/
+theorem detach_keeps_crls :
+    let kids : Forest := .prim 2 [1] (.node 0x31 (.raw [0x30, 0] .nil) (.rawc 0x30 [0x30, 7, 6, 1, 42, 0xA0, 2, 4, 0]
+      (.node 0xA0 (.raw [0x30, 1, 7] .nil) (.node 0xA1 (.raw [0x30, 1, 9] .nil) (.node 0x31 (.rawc 0x30 [0x30, 0] .nil) .nil)))))
+    (Forest.sibs (detachKids kids))[4]? = some [0xA1, 3, 0x30, 1, 9] ∧
+    (Forest.sibs (detachKids kids))[2]? = some [0x30, 3, 6, 1, 42] ∧
+    (Forest.sibs kids)[2]? = some [0x30, 7, 6, 1, 42, 0xA0, 2, 4, 0] ∧
+    emit (Forest.editField 4 .nil (detachKids kids)) ≠ emit (detachKids kids) := by decide
+
 /-! ### non-vacuity -/
 
 example : encLen 127 = [0x7f] ∧ encLen 128 = [0x81, 0x80] ∧ encLen 65536 = [0x83, 1, 0, 0] := by
@@ -250,5 +322,9 @@ example : attrListBytes [⟨[43], ⟨[], 0x31, [5, 0]⟩⟩, ⟨[42], ⟨[0x31, 
     .ok [0x31, 18, 0x30, 7, 6, 1, 43, 0x31, 2, 5, 0, 0x30, 7, 6, 1, 42, 0x31, 2, 5, 0] := by decide
 example : ∀ a ∈ [(⟨[42], ⟨[], 0x31, [5, 0]⟩⟩ : Attr)], a.oid ≠ oidContentType ∧ a.oid ≠ oidMessageDigest := by decide
 example : Shape.noTail (.node (.prim (.node (.rawc (.raw .done)) .done)) .done) = true := by decide
+example : (2 : Nat) < (Forest.sibs (Forest.prim 2 [1] (.node 0x31 .nil (.rawc 0x30 [0x30, 3, 6, 1, 42] .nil)))).length ∧
+    (Forest.sibs (detachedCI [42])).length = 1 := by decide
+example : Forest.dropSibs 2 (Forest.prim 2 [1] (.node 0x31 .nil (.rawc 0x30 [0x30, 3, 6, 1, 42] .nil))) = .rawc 0x30 [0x30, 3, 6, 1, 42] .nil ∧
+    ciOid [0x30, 3, 6, 1, 42] = some [42] := by decide
 
 end Relic.Props.C16
